@@ -380,6 +380,62 @@ pub fn run_stream(args: &Args) -> (u64, u64) {
             }
         }
     }
+    // MORE THAN 2^32 BYTES through one encrypter and one decrypter (both tiers, about 5 s per direction; Vanilla and TBC, whose position is defined
+    // modulo the key length: 2^32 is a multiple of neither 40 nor 20, so a position kept in 32 bits goes wrong there).
+    // Calls of 1 MiB, the first one 2 048 bytes shorter so that byte number 2^32 falls INSIDE a call; the calls at the
+    // start, just before, across and after the 2^32 boundary and the last one are judged against the specification
+    // from the state the specification says they start in (offset mod key length, previous ciphertext byte).
+    if exp != "wrath" && !args.extra.iter().any(|x| x == "nopast32") {
+        c.reset("stream-past32");
+        let key = rnd40(&mut rng);
+        if let Some((mut cl, mut sv)) = pair(&mut c, exp, "PAST", key, None, rng.gen()) {
+            let klen: u64 = if exp == "vanilla" { 40 } else { 20 };
+            let chunk: usize = 1 << 20;
+            let mut pristine = vec![0u8; chunk];
+            let mut x: u64 = 0x0F1E_2D3C_4B5A_6978 ^ args.seed;
+            for ch in pristine.chunks_mut(8) { x ^= x << 13; x ^= x >> 7; x ^= x << 17; ch.copy_from_slice(&x.to_le_bytes()); }
+            let total: u64 = (1u64 << 32) + (3u64 << 20);
+            for dir in ["enc", "dec"] {
+                let conn: &mut Conn = if dir == "enc" { &mut cl } else { &mut sv };
+                let h = if dir == "enc" { conn.he } else { conn.hd };
+                let r = guard(|| {
+                    let mut e = if dir == "enc" { conn.enc_clone() } else { None };
+                    let mut d = if dir == "dec" { conn.dec_clone() } else { None };
+                    let mut samples: Vec<(u64, u8, Vec<u8>, Vec<u8>)> = vec![];
+                    let mut buf = vec![0u8; chunk];
+                    let (mut off, mut ci, mut prev_c): (u64, u64, u8) = (0, 0, 0);
+                    while off < total {
+                        let len = if ci == 0 { chunk - 2048 } else { chunk.min((total - off) as usize) };
+                        buf[..len].copy_from_slice(&pristine[..len]);
+                        for (k, byte) in ci.to_le_bytes().iter().enumerate() { buf[k] ^= byte; }
+                        let end = off + len as u64;
+                        let want = ci == 0 || ci == 1 || (end + (2 << 20) > (1u64 << 32) && off < (1u64 << 32) + (2 << 20)) || end == total;
+                        let before = if want { buf[..4096.min(len)].to_vec() } else { vec![] };
+                        let last_in = buf[len - 1];
+                        if let Some(e) = e.as_mut() { e.encrypt(&mut buf[..len]); }
+                        if let Some(d) = d.as_mut() { d.decrypt(&mut buf[..len]); }
+                        if want { samples.push((off, prev_c, before, buf[..4096.min(len)].to_vec())); }
+                        prev_c = if dir == "enc" { buf[len - 1] } else { last_in };
+                        off = end;
+                        ci += 1;
+                    }
+                    let st = if let Some(e) = e.as_ref() { e.state() } else { d.as_ref().unwrap().state() };
+                    (samples, st, prev_c)
+                });
+                match r {
+                    Ok((samples, st, last_c)) => {
+                        c.tr.ev(json!({"ev": "Past32", "h": h, "exp": exp, "dir": dir, "nMiB": total >> 20, "st": st,
+                                        "want": {"i": total % klen, "p": last_c}, "res": {"kind": "ok"}}));
+                        for (off, pbyte, inp, out) in samples {
+                            c.tr.ev(json!({"ev": "StateChunk", "exp": exp, "dir": dir, "K": b(&key), "cst": {"i": off % klen, "p": pbyte},
+                                            "data": b(&inp), "out": b(&out)}));
+                        }
+                    }
+                    Err(m) => c.tr.ev(json!({"ev": "Past32", "h": h, "exp": exp, "dir": dir, "nMiB": total >> 20, "res": panic_res(&m)})),
+                }
+            }
+        }
+    }
     // boundary walk: calls that END exactly on a key-period boundary (20 / 40), on 256, 1024, 65 536 and one byte around them
     {
         c.reset("stream-boundaries");
@@ -1090,6 +1146,8 @@ pub fn run_wrathhdr(args: &Args) -> (u64, u64) {
             }
         }
     }
+    // long and short headers at every offset around keystream block edges, read-based and two-step (see alignment_section)
+    alignment_section(&mut c, &mut rng, &["wrath"]);
     c.tr.finish()
 }
 
@@ -1181,6 +1239,83 @@ fn build_wscript(len: usize, tmpl: &Value) -> Vec<Step> {
 
 /// C11: every header kind x fragmentation x interruption x failure offset x error kind, read and write,
 /// from TLC-generated templates; plus agreement of all entry points.
+/// Headers at every alignment against the key / keystream blocks (shared by the C11, C10 and C14 drivers).
+pub fn alignment_section(c: &mut C, rng: &mut StdRng, exps: &[&'static str]) {
+    // EVERY ALIGNMENT of a header against the key: each direction is first advanced by p raw bytes, p = every key position
+    // (Vanilla 0..39, TBC 0..19; Wrath a few), so that headers start at, straddle and end on the wrap of the key; then the
+    // four header operations (encrypt / decrypt x server / client header) run once through the typed helpers and once
+    // through the Write / Read wrappers, on clones of the same state, alternately on the combined object and a half
+    for exp in exps.iter().copied() {
+        // (Wrath: RC4 has no key position; offsets around 256, 512, 1024 and 65 536 stand in for block edges of any batching)
+        let positions: Vec<usize> = match exp {
+            "vanilla" => (0..40).collect(),
+            "tbc" => (0..20).collect(),
+            _ => vec![0, 1, 3, 250, 251, 252, 253, 254, 255, 256, 257, 507, 508, 509, 1019, 1020, 1021, 65531, 65532, 65533],
+        };
+        let key = rnd40(rng);
+        for (pi, p) in positions.into_iter().enumerate() {
+            if pi % 10 == 0 { c.reset("hdrio-alignment"); }
+            let Some((mut cl, mut sv)) = pair(c, exp, "ALIGN", key, None, 17) else { continue };
+            if p > 0 {
+                let mut w = vec![0u8; p];
+                rng.fill_bytes(&mut w);
+                if let Some(o) = c.call(&mut sv, "enc", &w, "combined") { c.call(&mut cl, "dec", &o, "combined"); }
+                if let Some(o) = c.call(&mut cl, "enc", &w, "combined") { c.call(&mut sv, "dec", &o, "combined"); }
+            }
+            // (Wrath: a long AND a short header at every offset)
+            let sizes: Vec<u32> = if exp == "wrath" { vec![[0x1_2345u32, 0x7F_FFFF, 0x8000][pi % 3], [0x7FFFu32, 0x4][pi % 2]] } else { vec![[0x0123u32, 0x7FFF, 0x4, 0x00FF][p % 4]] };
+            let op: u16 = OPCODES[p % OPCODES.len()];
+            let op32: u32 = [0x1DCu32, 0xFFFF_FFFF, 0x0001_0000, 0x3][p % 4];
+            for (set, size) in sizes.iter().flat_map(|z| [(0usize, *z), (1usize, *z)]) {
+                let mut cl2 = c.clone_conn(&cl);
+                let mut sv2 = c.clone_conn(&sv);
+                let via = if (p + set) % 2 == 0 { "combined" } else { "half" };
+                if via == "half" { c.split(&mut cl2); c.split(&mut sv2); }
+                if set == 0 {
+                    // typed helpers
+                    if let Some(ct) = c.enc_server_hdr(&mut sv2, size, op, via) {
+                        c.sent = Some((size, op as u32));
+                        if exp == "wrath" {
+                            // the two-step path: four bytes, then (long form) the fifth
+                            let mut a = [0u8; 4]; a.copy_from_slice(&ct[..4]);
+                            if let Some(None) = c.wrath_attempt(&mut cl2, a, via) { if ct.len() > 4 { c.wrath_complete(&mut cl2, ct[4], via); } }
+                        }
+                        else { let mut a = [0u8; 4]; a.copy_from_slice(&ct[..4]); c.dec_server_hdr(&mut cl2, a, via); }
+                    }
+                    if let Some(ct) = c.enc_client_hdr(&mut cl2, size as u16, op32, via) {
+                        c.sent = Some((size & 0xFFFF, op32));
+                        let mut a = [0u8; 6]; a.copy_from_slice(&ct[..6]);
+                        c.dec_client_hdr(&mut sv2, a, via);
+                    }
+                } else {
+                    // Write / Read wrappers (the ciphertext the peer reads is the raw operation on a clone taken before)
+                    let before = sv2.enc_clone();
+                    c.write_hdr(&mut sv2, "server", size, op as u32, &[Step::Accept(2), Step::Accept(9)], via);
+                    if let Some(mut e) = before {
+                        let mut ct = wire_server(exp, size, op);
+                        e.encrypt(&mut ct);
+                        c.sent = Some((size, op as u32));
+                        c.read_hdr(&mut cl2, "server", &[Step::Data(ct[..1].to_vec()), Step::Data(ct[1..].to_vec())], via);
+                    }
+                    let before = cl2.enc_clone();
+                    c.write_hdr(&mut cl2, "client", size & 0xFFFF, op32, &[Step::Accept(9)], via);
+                    if let Some(mut e) = before {
+                        let mut ct = wire_client(size as u16, op32);
+                        e.encrypt(&mut ct);
+                        c.sent = Some((size & 0xFFFF, op32));
+                        c.read_hdr(&mut sv2, "client", &[Step::Data(ct)], via);
+                    }
+                }
+                c.sent = None;
+                // the streams go on in step afterwards
+                let w = [0x5Au8, 0xA5, 0x00];
+                if let Some(o) = c.call(&mut sv2, "enc", &w, via) { c.call(&mut cl2, "dec", &o, via); }
+                if let Some(o) = c.call(&mut cl2, "enc", &w, via) { c.call(&mut sv2, "dec", &o, via); }
+            }
+        }
+    }
+}
+
 pub fn run_hdrio(args: &Args) -> (u64, u64) {
     let mut c = C::new(Tr::create(&args.out));
     let mut rng = StdRng::seed_from_u64(args.seed);
@@ -1357,6 +1492,7 @@ pub fn run_hdrio(args: &Args) -> (u64, u64) {
             c.drop_conn(&svc);
         }
     }
+    alignment_section(&mut c, &mut rng, &EXPS);
     // sequences on ONE object per expansion: related sizes with the same opcode and related opcodes with the same size,
     // through the typed helper and the Write wrapper alternately, each decoded by the peer - every header is laid out
     // from its own arguments, nothing carried over from the previous call
@@ -1921,7 +2057,112 @@ pub fn run_halves(args: &Args) -> (u64, u64) {
             for mut ev in t2.join().unwrap_or_default() { let mut r0 = jbytes(&ev["data"]); rd.decrypt(&mut r0); ev["ref"] = b(&r0); c.tr.ev(ev); }
         }
     }
+    first_operation_section(&mut c, &mut rng);
     c.tr.finish()
+}
+
+/// one-direction reference halves for `role`, from a world login of their own on a fresh thread
+fn ref_halves(exp: &'static str, role: &'static str, key: [u8; 40]) -> Option<(En, De)> {
+    std::thread::spawn(move || {
+        let u = wow_srp::normalized_string::NormalizedString::new("FIRSTOP").unwrap();
+        match (exp, role) {
+            ("vanilla", "client") => { let (_, x) = wow_srp::vanilla_header::ProofSeed::new().into_client_header_crypto(&u, key, 21); let (e, d) = x.split(); Some((En::V(e), De::V(d))) }
+            ("tbc", "client") => { let (_, x) = wow_srp::tbc_header::ProofSeed::new().into_client_header_crypto(&u, key, 21); let (e, d) = x.split(); Some((En::T(e), De::T(d))) }
+            ("wrath", "client") => { let (_, x) = wr::ProofSeed::new().into_client_header_crypto(&u, key, 21); let (e, d) = x.split(); Some((En::WC(e), De::WC(d))) }
+            // (Vanilla and TBC halves are the same types and keys for both roles)
+            ("vanilla", _) => { let (_, y) = wow_srp::vanilla_header::ProofSeed::new().into_client_header_crypto(&u, key, 21); let (e, d) = y.split(); Some((En::V(e), De::V(d))) }
+            ("tbc", _) => { let (_, y) = wow_srp::tbc_header::ProofSeed::new().into_client_header_crypto(&u, key, 21); let (e, d) = y.split(); Some((En::T(e), De::T(d))) }
+            _ => {
+                // Wrath server halves differ from the client's: a real server login against a proof made for its own seed
+                let ss = wr::ProofSeed::new(); let ssv = ss.seed();
+                let cs = wr::ProofSeed::new(); let csv = cs.seed();
+                let (p, _) = cs.into_client_header_crypto(&u, key, ssv);
+                let x = ss.into_server_header_crypto(&u, key, p, csv).ok()?;
+                let (e, d) = x.split();
+                Some((En::WS(e), De::WS(d)))
+            }
+        }
+    }).join().ok().flatten()
+}
+
+fn parse_plain_header(exp: &str, kind: &str, p: &[u8]) -> Value {
+    if kind == "client" {
+        hdr_json_client(u16::from_be_bytes([p[0], p[1]]), u32::from_le_bytes([p[2], p[3], p[4], p[5]]))
+    } else if exp == "wrath" && p[0] & 0x80 != 0 {
+        hdr_json_server((((p[0] & 0x7F) as u32) << 16) | ((p[1] as u32) << 8) | p[2] as u32, u16::from_le_bytes([p[3], p[4]]))
+    } else {
+        hdr_json_server(u16::from_be_bytes([p[0], p[1]]) as u32, u16::from_le_bytes([p[2], p[3]]))
+    }
+}
+
+/// C12: EVERY entry point as the VERY FIRST operation on a fresh combined object (nothing, not even an accessor, has
+/// touched it: the harness observes through clones), then the other entry points; every byte the object produces and
+/// every header it decodes is compared with a pair of separate one-direction reference halves fed the same input
+pub fn first_operation_section(c: &mut C, rng: &mut StdRng) {
+    for exp in EXPS {
+        for role in ["server", "client"] {
+            c.reset("first-operation");
+            let key = rnd40(rng);
+            for first in 0..6usize {
+                for via in ["combined", "half"] {
+                    let Some((mut cl, mut sv)) = pair(c, exp, "FIRSTOP", key, None, 21) else { continue };
+                    let Some((mut ref_e, mut ref_d)) = ref_halves(exp, role, key) else { continue };
+                    let (subject, peer): (&mut Conn, &mut Conn) = if role == "server" { (&mut sv, &mut cl) } else { (&mut cl, &mut sv) };
+                    let in_kind = if role == "server" { "client" } else { "server" };
+                    let out_kind = role;
+                    // the six operations, the chosen one first, then all of them in order
+                    let mut order: Vec<usize> = vec![first];
+                    order.extend(0..6usize);
+                    for (n, op) in order.into_iter().enumerate() {
+                        let size: u32 = if exp == "wrath" && in_kind == "server" && n % 2 == 1 { 0x1_2345 + n as u32 } else { 0x20 + n as u32 };
+                        let op16 = OPCODES[(n + first) % OPCODES.len()];
+                        let op32 = 0x1DC + n as u32;
+                        match op {
+                            0 | 1 | 2 => {
+                                // incoming: the peer encrypts a header; the subject decodes it through the Read wrapper (0),
+                                // the typed helper (1) or the raw operation (2)
+                                let ct = if in_kind == "client" { c.enc_client_hdr(peer, size as u16, op32, "combined") } else { c.enc_server_hdr(peer, size, op16, "combined") };
+                                let Some(ct) = ct else { break };
+                                let mut plain = ct.clone();
+                                ref_d.decrypt(&mut plain);
+                                c.sent = Some(if in_kind == "client" { (size & 0xFFFF, op32) } else { (size, op16 as u32) });
+                                if op == 0 || (op == 1 && exp == "wrath" && in_kind == "server") {
+                                    c.ref_hdr = Some(parse_plain_header(exp, in_kind, &plain));
+                                    c.read_hdr(subject, in_kind, &[Step::Data(ct)], via);
+                                } else if op == 1 && in_kind == "client" {
+                                    let mut a = [0u8; 6]; a.copy_from_slice(&ct[..6]);
+                                    c.dec_client_hdr(subject, a, via);
+                                } else if op == 1 {
+                                    let mut a = [0u8; 4]; a.copy_from_slice(&ct[..4]);
+                                    c.dec_server_hdr(subject, a, via);
+                                } else {
+                                    c.ref_out = Some(plain);
+                                    c.call(subject, "dec", &ct, via);
+                                }
+                                c.sent = None;
+                            }
+                            _ => {
+                                // outgoing: Write wrapper (3), typed helper (4), raw operation on the wire layout (5)
+                                let wire = if out_kind == "client" { wire_client(size as u16, op32) } else { wire_server(exp, size & 0x7FFF, op16) };
+                                let mut want = wire.clone();
+                                ref_e.encrypt(&mut want);
+                                if op == 3 {
+                                    c.write_hdr(subject, out_kind, if out_kind == "client" { size & 0xFFFF } else { size & 0x7FFF }, if out_kind == "client" { op32 } else { op16 as u32 }, &[Step::Accept(9)], via);
+                                } else if op == 4 {
+                                    if out_kind == "client" { c.enc_client_hdr(subject, size as u16, op32, via); } else { c.enc_server_hdr(subject, size & 0x7FFF, op16, via); }
+                                } else {
+                                    c.ref_out = Some(want);
+                                    c.call(subject, "enc", &wire, via);
+                                }
+                            }
+                        }
+                    }
+                    c.ref_out = None;
+                    c.ref_hdr = None;
+                }
+            }
+        }
+    }
 }
 
 /// C14 (header side): decrypters fed arbitrary bytes, in any amount and ORDER, through every entry point;
@@ -2126,5 +2367,7 @@ pub fn run_hdradv(args: &Args) -> (u64, u64) {
             c.world_client(exp, "HOSTILE", [0u8; 40], u32::MAX, true, Some(0));
         }
     }
+    // headers at every alignment against the key / keystream blocks: none may panic (see alignment_section)
+    alignment_section(&mut c, &mut rng, &EXPS);
     c.tr.finish()
 }
